@@ -448,7 +448,56 @@ Definition valid_at_b (names : list str) (dflt : nat) (t : list (list aseg)) (l 
 Definition valid_b names dflt t a b inst : bool :=
   names_ok names && atab_ok (length names) t && valid_at_b names dflt t a inst && valid_at_b names dflt t b inst.
 Definition base_ok_b (base : str) (bsegs : list str) : bool :=
-  forallb seg_ok bsegs && str_eqb (trim_slashes base) (join_slash bsegs).
+  forallb seg_ok bsegs && str_eqb (trim_slashes base) (join_slash bsegs)
+  && list_eqb str_eqb (path_segments base) bsegs.
+
+(** * First-match semantics (overlapping routes).
+    When several routes of the table match a path the router's rule is "the first matching route
+    wins", and inside a route an optional parameter takes a segment whenever the rest of the path can
+    still be read.  [parses] enumerates the readings of one route in exactly that order of preference,
+    so the first reading of a path is the head of the enumeration over the table in table order. *)
+Definition first_parse (n l : nat) (t : list (list aseg)) (segs : list str) : option (list iseg) :=
+  hd_error (flat_map (fun r => parses n l r segs) t).
+
+(** the segments expected after switching from locale [a] to [b]: the static segments of the first
+    reading in [b]'s spelling; a path that no route matches is kept as it is *)
+Definition expected_segs (n : nat) (t : list (list aseg)) (a b : nat) (segs : list str) : list str :=
+  match first_parse n a t segs with Some inst => render b inst | None => segs end.
+
+(** [valid_url]: what a URL of locale [a] must satisfy for the statement to make sense, with
+    overlapping tables allowed: locale names are single non-empty segments, the table is well formed,
+    the segments after the base path and the prefix are non-empty and slash-free, and a URL of the
+    default locale does not start with a locale name *)
+Definition valid_url (names : list str) (dflt : nat) (t : list (list aseg)) (a b : nat) (segs : list str) : Prop :=
+  names_ok names = true /\ atab_ok (length names) t = true /\ (a < length names)%nat /\ (b < length names)%nat /\
+  forallb seg_ok segs = true /\ (a = dflt -> first_not_locale names segs = true).
+Definition valid_url_b (names : list str) (dflt : nat) (t : list (list aseg)) (a b : nat) (segs : list str) : bool :=
+  names_ok names && atab_ok (length names) t && Nat.ltb a (length names) && Nat.ltb b (length names)
+  && forallb seg_ok segs && (negb (Nat.eqb a dflt) || first_not_locale names segs).
+
+(** the path string handed to the router denotes the URL (base, locale [a], [segs]): any spelling
+    with repeated or trailing slashes is allowed *)
+Definition path_denotes (names : list str) (dflt : nat) (bsegs : list str) (a : nat) (segs : list str) (path : str) : Prop :=
+  path_segments path = bsegs ++ prefix_of names dflt a ++ segs.
+
+(** histories under first-match semantics: the segments expected after every switch, and the
+    validity of every intermediate URL *)
+Fixpoint expected_history (n : nat) (t : list (list aseg)) (a : nat) (segs : list str) (ls : list nat)
+  : list (nat * list str) :=
+  match ls with
+  | [] => []
+  | l :: ls' => let s' := expected_segs n t a l segs in (l, s') :: expected_history n t l s' ls'
+  end.
+Fixpoint hist_valid (names : list str) (dflt : nat) (t : list (list aseg)) (a : nat) (segs : list str) (ls : list nat) : Prop :=
+  match ls with
+  | [] => True
+  | l :: ls' => valid_url names dflt t a l segs /\ hist_valid names dflt t l (expected_segs (length names) t a l segs) ls'
+  end.
+Fixpoint hist_valid_b (names : list str) (dflt : nat) (t : list (list aseg)) (a : nat) (segs : list str) (ls : list nat) : bool :=
+  match ls with
+  | [] => true
+  | l :: ls' => valid_url_b names dflt t a l segs && hist_valid_b names dflt t l (expected_segs (length names) t a l segs) ls'
+  end.
 
 (** * The specification *)
 
@@ -461,6 +510,12 @@ Definition res_str_eqb (r : res str) (s : str) : bool :=
 Definition spec_switch (names : list str) (dflt : nat) (bsegs : list str) (inst : list iseg)
   (search hash : str) (b : nat) (out : res str) : bool :=
   res_str_eqb out (url_path names dflt bsegs b inst ++ url_suffix search hash).
+
+(** first-match semantics: the rewritten URL has the expected segments of the first reading *)
+Definition spec_first_match (names : list str) (dflt : nat) (bsegs : list str) (t : list (list aseg))
+  (a b : nat) (segs : list str) (search hash : str) (out : res str) : bool :=
+  res_str_eqb out (render_path (bsegs ++ prefix_of names dflt b ++ expected_segs (length names) t a b segs)
+                   ++ url_suffix search hash).
 
 Definition opt_nat_eqb (a b : option nat) : bool :=
   match a, b with Some x, Some y => Nat.eqb x y | None, None => true | _, _ => false end.
